@@ -13,7 +13,7 @@ ASSUME = ["entries are Gaussian integers of bounded magnitude, exact in numpy's 
           "two different axis permutations never agree by accident",
           "bounded: dimension tuples over {2, 3} (and 1, which Dim drops) with at most MaxWires wires per side"]
 CONST = {"quick": {"MaxWires": 2, "MaxSize": 16, "MaxEntry": 2000, "replay": 500},
-         "thorough": {"MaxWires": 2, "MaxSize": 36, "MaxEntry": 2000, "replay": 5000}}
+         "thorough": {"MaxWires": 2, "MaxSize": 36, "MaxEntry": 2000, "replay": 3000}}
 EMPTY = {"dom": [], "cod": [], "a": [[1, 0]]}
 
 
@@ -75,7 +75,7 @@ def run(tier, seed, t0):
             B = to_real(tb)
             rec("then", lambda: A >> B, a=ta, b=tb)          # mostly non-composable: must be refused
         pool = [t for t in states if small(t)]
-        n_pairs = 300 if tier == "quick" else 4000
+        n_pairs = 300 if tier == "quick" else 2000
         for _ in range(n_pairs):
             ta, tb = rnd.choice(pool), rnd.choice(pool)
             if len(ta["a"]) * len(tb["a"]) > 1500:
